@@ -1,5 +1,8 @@
 //! The inner datastructure of a PrefixTrie that offers interior mutability.
 
+#[cfg(feature = "verif-hooks")]
+use crate::verif::AtomicUsize;
+#[cfg(not(feature = "verif-hooks"))]
 use std::sync::atomic::AtomicUsize;
 use std::{
     cell::UnsafeCell,
@@ -74,12 +77,16 @@ impl<P, T> Index<usize> for Table<P, T> {
     type Output = Node<P, T>;
 
     fn index(&self, index: usize) -> &Self::Output {
+        #[cfg(feature = "verif-hooks")]
+        crate::verif::on_access(self, index, false);
         &self.as_ref()[index]
     }
 }
 
 impl<P, T> IndexMut<usize> for Table<P, T> {
     fn index_mut(&mut self, index: usize) -> &mut Self::Output {
+        #[cfg(feature = "verif-hooks")]
+        crate::verif::on_access(self, index, true);
         &mut self.as_mut()[index]
     }
 }
@@ -177,6 +184,8 @@ impl<P, T> Table<P, T> {
     /// reference to that node (neither mutable nor immutable).
     #[allow(clippy::mut_from_ref)]
     pub(crate) unsafe fn get_mut(&self, idx: usize) -> &mut Node<P, T> {
+        #[cfg(feature = "verif-hooks")]
+        crate::verif::on_access(self, idx, true);
         // old implementation that caused issues with Miri:
         // unsafe { &mut self.0.get().as_mut().unwrap()[idx] }
 
